@@ -9,9 +9,9 @@
 (*   lq.rows     content of the local queue;  c15.end  the crawl went quiet                             *)
 EXTENDS Integers, Sequences, FiniteSets, TraceLib
 
-VARIABLES l, found, delivered, handed, finished, deleted
-vars == <<l, found, delivered, handed, finished, deleted>>
-Init == l = 1 /\ found = {} /\ delivered = {} /\ handed = <<>> /\ finished = {} /\ deleted = {}
+VARIABLES l, found, delivered, handed, finished, deleted, lqmode
+vars == <<l, found, delivered, handed, finished, deleted, lqmode>>
+Init == l = 1 /\ found = {} /\ delivered = {} /\ handed = <<>> /\ finished = {} /\ deleted = {} /\ lqmode = FALSE
 
 Range(s) == {s[i] : i \in 1..Len(s)}
 Applied(e) == IF HasKey(e, "applied") THEN e.applied ELSE TRUE
@@ -33,12 +33,15 @@ Next ==
                  /\ Check(~HasKey(e.urls[i], "pathok") \/ e.urls[i].pathok, l, "hop path sent to HQ is not a run of L")
                  /\ Check(Triple(e.urls[i]) \in found, l,
                           "a URL reaches the queue that differs from every outlink discovered (text, via or hops changed) value=" \o e.urls[i].value)
-            /\ delivered' = IF Applied(e) THEN delivered \cup {Triple(e.urls[i]) : i \in 1..Len(e.urls)} ELSE delivered
+            \* the local queue's add event lists the batch it was given, not what the transaction kept: for the local
+            \* queue a delivery is a row seen in lq.db (lq.rows) or handed out (lq.claim)
+            /\ delivered' = IF e.ev = "hq.add" /\ Applied(e) THEN delivered \cup {Triple(e.urls[i]) : i \in 1..Len(e.urls)} ELSE delivered
             /\ UNCHANGED <<found, handed, finished, deleted>>
        [] e.ev \in {"hq.get", "lq.claim"} ->
             /\ handed' = [id \in {e.urls[i].id : i \in 1..Len(e.urls)} |->
                             LET u == CHOOSE u \in Range(e.urls) : u.id = id IN Triple(u)] @@ handed
-            /\ UNCHANGED <<found, delivered, finished, deleted>>
+            /\ delivered' = IF e.ev = "lq.claim" THEN delivered \cup {Triple(e.urls[i]) : i \in 1..Len(e.urls)} ELSE delivered
+            /\ UNCHANGED <<found, finished, deleted>>
        [] e.ev = "pre.take" /\ e.id \in DOMAIN handed /\ HasKey(e, "raw") ->
             /\ Check(e.raw = handed[e.id][1], l, "seed built from a queue row has another URL text id=" \o e.id)
             /\ Check(e.via = handed[e.id][2], l, "via lost on the way back into a seed id=" \o e.id)
@@ -51,12 +54,15 @@ Next ==
             /\ UNCHANGED <<found, delivered, handed, finished>>
        [] e.ev = "lq.rows" ->
             /\ Check(\A i, j \in 1..Len(e.rows) : i # j => e.rows[i].value # e.rows[j].value, l, "a URL waits twice in the local queue")
-            /\ UNCHANGED <<found, delivered, handed, finished, deleted>>
+            /\ delivered' = delivered \cup {Triple(e.rows[i]) : i \in 1..Len(e.rows)}
+            /\ UNCHANGED <<found, handed, finished, deleted>>
        [] e.ev = "c15.end" ->
-            /\ \A t \in found : Check(t \in delivered, l, "a discovered outlink never reached the queue u=" \o t[1])
+            \* (a URL that was already waiting is not queued again: for the local queue the text decides)
+            /\ \A t \in found : Check(t \in delivered \/ (lqmode /\ \E d \in delivered : d[1] = t[1]), l, "a discovered outlink never reached the queue u=" \o t[1])
             /\ \A id \in finished : Check(id \in deleted, l, "a finished seed was never acknowledged to the queue id=" \o id)
             /\ UNCHANGED <<found, delivered, handed, finished, deleted>>
        [] OTHER -> UNCHANGED <<found, delivered, handed, finished, deleted>>
+  /\ lqmode' = (lqmode \/ (l <= TraceLen /\ TraceLog[l].ev = "c15.mode" /\ TraceLog[l].mode = "lq"))
   /\ l' = l + 1
 Spec == Init /\ [][Next]_vars
 Marked == Mark(l)
